@@ -199,6 +199,11 @@ func growthForms(big string) []string {
 		"m = {1: 1}; for i = 40 { n = {}; for kv = m { n[kv.key * 2] = 1; n[kv.key * 2 + 1] = 1 }; m = m + n }; len(m)",
 		"a = 0 : 1000000; for 200 { a = a + a }; len(a)",
 		"join([\"x\" * 1000000] * 100000, \"\")",
+		"[] * " + big,
+		"len(\"\" * " + big + ")",
+		"x = [] * " + big + "; len(x)",
+		"a = [1] * 100000; m = {}; for i = 2000 { m[i] = a }; m",
+		"a = 0 : 60000; m = {}; for i = 1500 { m[i] = a }; println(m)",
 		"join([\"\"] * 3000, \"-\" * 1000000)",
 		"join([\"ab\"] * 100000, \"0123456789\" * 10000)",
 		"len(join(0:200000, \"x\" * 100000))",
